@@ -200,6 +200,8 @@ pub fn run(ctx: &Ctx) -> i32 {
             }
         });
     }
+    // clipping of cel images on landscape / portrait / large canvases (shared with C02)
+    crate::props::c02::offsets(ctx, thorough);
     if ctx.wants_family("links") {
         let mut cases = Vec::new();
         for fi in 0..3usize {
